@@ -250,7 +250,7 @@ def load_known():
             line = line.strip()
             if not line or line.startswith("#"):
                 continue
-            if line.startswith("fixed:"):
+            if line.startswith("fixed:") or '"residual"' in line:
                 fixed.append(line)
                 continue
             known.append(json.loads(line))
